@@ -130,7 +130,7 @@ def _is_log_call(call):
 
 
 _SAFE_CALLS = {"format", "str", "join", "len", "repr", "int", "float", "list", "tuple", "type", "id",
-               "_pretty_format_handler", "get_time", "ljust", "rjust"}
+               "_pretty_format_handler", "get_time", "ljust", "rjust", "abs", "min", "max", "round", "bool", "sorted"}
 
 
 def _args_are_pure(call):
